@@ -48,6 +48,11 @@ def rules(ctx: Ctx) -> None:
         ctx.touched(f)
         fl = flow(prog, f)
         owner = f"{f.cls.name}.{f.name}" if f.cls else f.name
+        # every CTE in scope is a candidate: the dictionary is built from all of them (a WITH RECURSIVE body refers to the CTE being defined)
+        for dc in list(dicts.values()) + [n.func.value for n in inline]:
+            filt = [c for g_ in dc.generators for c in g_.ifs]
+            ctx.ob("R08.3", f"cte-dictionary-holds-every-cte-in-scope:{owner}", not filt, loc(f.mod, dc),
+                   f"`{u(dc)[:70]}`: a filter removes CTE names from resolution, and the removed name is then read as a real table" + (f" (filter `{u(filt[0])}`)" if filt else ""))
         for n in prog.walk_fn(f):
             key = None
             if isinstance(n, ast.Call) and isinstance(n.func, ast.Attribute) and n.func.attr == "get" and isinstance(n.func.value, ast.Name) and n.func.value.id in dicts and n.args:
